@@ -1170,22 +1170,22 @@ class Executor:
             if it.step == -1:
                 n = z3.If(it.lo > it.hi, it.lo - it.hi, 0)
                 return self.Seq(n, lambda k: it.lo - k)
-        if isinstance(it, tuple) and it and it[0] == "enumerate":
+        if isinstance(it, tuple) and it and isinstance(it[0], str) and it[0] == "enumerate":
             s = self.as_seq(it[1])
             return self.Seq(s.n, lambda k: (to_int(k), s.elem(k)))
-        if isinstance(it, tuple) and it and it[0] == "zip":
+        if isinstance(it, tuple) and it and isinstance(it[0], str) and it[0] == "zip":
             ss = [self.as_seq(x) for x in it[1]]
             return self.Seq(ss[0].n, lambda k: tuple(s.elem(k) for s in ss))
-        if isinstance(it, tuple) and it and it[0] == "reversed":
+        if isinstance(it, tuple) and it and isinstance(it[0], str) and it[0] == "reversed":
             s = self.as_seq(it[1])
             return self.Seq(s.n, lambda k: s.elem(s.n - 1 - k))
-        if isinstance(it, tuple) and it and it[0] == "items":
+        if isinstance(it, tuple) and it and isinstance(it[0], str) and it[0] == "items":
             d = it[1]
             return self.Seq(d.n, lambda k: (z3.Select(d.karr, k), z3.Select(d.val, z3.Select(d.karr, k))))
-        if isinstance(it, tuple) and it and it[0] == "keys":
+        if isinstance(it, tuple) and it and isinstance(it[0], str) and it[0] == "keys":
             d = it[1]
             return self.Seq(d.n, lambda k: z3.Select(d.karr, k))
-        if isinstance(it, tuple) and it and it[0] == "values":
+        if isinstance(it, tuple) and it and isinstance(it[0], str) and it[0] == "values":
             d = it[1]
             return self.Seq(d.n, lambda k: z3.Select(d.val, z3.Select(d.karr, k)))
         h = self.deref(it)
@@ -1210,7 +1210,7 @@ class Executor:
             return None
 
     def iter_concrete(self, it, node):
-        if isinstance(it, tuple) and it and it[0] in ("enumerate", "zip", "reversed", "items", "keys", "values"):
+        if isinstance(it, tuple) and it and isinstance(it[0], str) and it[0] in ("enumerate", "zip", "reversed", "items", "keys", "values"):
             tag = it[0]
             if tag == "enumerate":
                 return [(z3.IntVal(k), x) for k, x in enumerate(self.iter_concrete(it[1], node))]
